@@ -60,16 +60,32 @@ def file_task(task):
             cluster_file = None
             assign = None
             cl_probs = None
+            assign_loss = False
+            low, high = 1e-4, 0.4
+            chrom = False
             if clustered:
                 k = int(rng.integers(1, n_mut + 1))
-                cl_probs = [0.0, 0.05, 0.5][: max(1, k)] if c % 8 == 7 else None
+                sel = c // 4 + task["shard"]
+                cl_probs = [0.0, 0.05, 0.5][: max(1, k)] if sel % 3 == 2 else None
+                # loss-probability options: assigned by the program (from mutation positions if a 'chrom' column exists,
+                # else the documented fallback to the low value), user values for low / high
+                assign_loss = sel % 2 == 1
+                if assign_loss:
+                    low = [1e-4, 0.02, 0.3][(sel // 2) % 3]
+                    high = [0.4, 0.9][(sel // 6) % 2]
+                    chrom = (sel // 4) % 2 == 1
+                    if chrom:
+                        for r in rows:
+                            r["chrom"] = "chr%d" % (1 + (int(r["mutation_id"][1:]) * 7) % 22)
+                        inputs.write_table(rows, in_file)
                 crow, assign = inputs.make_clusters(rng, rows, k, outlier_prob_col=cl_probs)
                 cluster_file = os.path.join(tmp, "cl.tsv")
                 inputs.write_table(crow, cluster_file)
             case = {"seed": task["seed"], "shard": task["shard"], "case": c, "n_mut": n_mut, "D": D, "G": G,
-                    "density": density, "precision": precision, "outlier_prob": op, "clustered": clustered}
+                    "density": density, "precision": precision, "outlier_prob": op, "clustered": clustered,
+                    "assign_loss_prob": assign_loss, "low_loss_prob": low, "high_loss_prob": high, "chrom_column": chrom}
             try:
-                data, samples = load_data(in_file, np.random.default_rng(0), 1e-4, 0.4, False, cluster_file=cluster_file,
+                data, samples = load_data(in_file, np.random.default_rng(0), low, high, assign_loss, cluster_file=cluster_file,
                                           density=density, grid_size=G, outlier_prob=op, precision=precision)
             except Exception as e:
                 et, where, msg = describe_exception(e)
@@ -135,12 +151,31 @@ def file_task(task):
                         break
                     size = len(members[cid])
                     p = op
-                    if cl_probs is not None:
+                    allowed = None
+                    if assign_loss:
+                        part.count("assigned_loss_prob_points")
+                        if cl_probs is not None:
+                            p = cl_probs[cid % len(cl_probs)]  # the user's column is taken as it is
+                        elif chrom:
+                            allowed = [low, high]  # assigned from the data: one of the two configured values
+                        else:
+                            p = low  # documented fallback when no position data exist
+                    elif cl_probs is not None:
                         p = cl_probs[cid % len(cl_probs)]  # same rule as inputs.make_clusters
                         if op == 0:
                             p = 0.0
                         elif p == 0:
                             p = op
+                    if allowed is not None:
+                        hits = [q for q in allowed if abs(dp.outlier_prob - math.log(q) * size) <= 1e-9
+                                and abs(dp.outlier_prob_not - math.log1p(-q) * size) <= 1e-9]
+                        if not hits:
+                            part.violation("cluster outlier prior terms are not size*log p and size*log(1-p) for either "
+                                           "configured loss probability",
+                                           dict(case, cluster=cid, size=size, got=[float(dp.outlier_prob), float(dp.outlier_prob_not)]))
+                            break
+                        part.count("cluster_points_checked")
+                        continue
                     exp = (0, 0.0) if p == 0 else (math.log(p) * size, math.log1p(-p) * size)
                     if not (abs(dp.outlier_prob - exp[0]) <= 1e-9 and abs(dp.outlier_prob_not - exp[1]) <= 1e-9):
                         part.violation("cluster outlier prior terms are not size*log p and size*log(1-p)",
@@ -200,7 +235,8 @@ def run(ctx):
     quick = ctx.tier == "quick"
     ctx.rule = ("generated input files: 1-5 mutations x 1-4 samples, read counts incl. depth 0, alt in {0,d}, depth to 1e6, "
                 "major 1-8, minor 0..major, normal 1-3, tumour content incl. 1.0 and 1e-3, error rate 1e-6..0.49, both "
-                "densities, precision 0.1..1e5, grids 2..201, with/without cluster file and cluster outlier column; every "
+                "densities, precision 0.1..1e5, grids 2..201, with/without cluster file and cluster outlier column, loss "
+                "probability assigned by the program (with / without a chrom column, low 1e-4/0.02/0.3, high 0.4/0.9); every "
                 "grid cell against the reference mixture; normalisation over all alternate counts for depth<=300; "
                 "distinct = generated file / copy-number state")
     ctx.assumptions = ["tolerance 1e-6 + 1e-10*depth absolute in log space (lgamma cancellation)",
